@@ -158,6 +158,13 @@ func (s *MemoryAllocationStore) SaveAllocation(ctx context.Context, alloc Alloca
 		}
 	}
 
+	// A record being replaced no longer holds its old address
+	if old, exists := s.byPool[alloc.PoolID][alloc.SubscriberID]; exists {
+		if oldKey := old.Prefix.IP.String(); oldKey != ipKey {
+			delete(s.byIP, oldKey)
+		}
+	}
+
 	// Update pool index
 	if s.byPool[alloc.PoolID] == nil {
 		s.byPool[alloc.PoolID] = make(map[string]AllocationRecord)
